@@ -178,6 +178,16 @@ func (m *Module) pos(p token.Pos) string {
 	return fmt.Sprintf("%s:%d:%d", rel, ps.Line, ps.Column)
 }
 
+// origPosition is Fset.Position with positions inside a helper copy (dup.go)
+// mapped back to the helper in the working tree.
+func (m *Module) origPosition(p token.Pos) token.Position {
+	ps := m.Fset.Position(p)
+	if l, ok := mapDupPos(ps.Filename, ps.Line); ok {
+		ps.Line = l
+	}
+	return ps
+}
+
 // fnName renders a function name relative to the module ("mm/pmm.(*BitmapAllocator).AllocFrame").
 func (m *Module) fnName(fn *ssa.Function) string {
 	if fn == nil {
